@@ -99,11 +99,16 @@ class Perm(System):
                     evs.append([s, pi])
         return evs
 
-    def _batch(self, sym, pi):
+    def _batch(self, sym, pi, cfg=None):
         b = self.menu[sym]
-        if pi is None:
-            return b.copy()
-        return b[PERMS[len(b)][pi]].copy()
+        out = b.copy() if pi is None else b[PERMS[len(b)][pi]].copy()
+        if cfg and cfg.get("container") == "DataFrame":
+            # the permuted frame keeps its row labels in permuted order (anything aligning on labels would undo the permutation)
+            idx = list(range(len(b))) if pi is None else PERMS[len(b)][pi]
+            import pandas as pd
+
+            return pd.DataFrame(out, columns=["a", "b"][: out.shape[1]], index=[10 + 3 * i for i in idx])
+        return out
 
     def _distance(self, det, state, which, sym, pi):
         if self.name in ("HDDDM", "CDBD"):
@@ -115,8 +120,10 @@ class Perm(System):
     def step(self, cfg, state, ev, pos, ctx):
         sym, pi = ev
         a, b = state["a"], state["b"]
-        xa = self._batch(sym, None)
-        xb = self._batch(sym, pi)
+        xa = self._batch(sym, None, cfg)
+        xb = self._batch(sym, pi, cfg)
+        if cfg.get("container"):
+            ctx.count("dataframe_batches")
         if pi is not None:
             state["used"] += 1
             ctx.mark("permuted_reference" if pos == 0 else "permuted_test_batch")
@@ -131,8 +138,8 @@ class Perm(System):
             return {"set_reference": sym, "perm": pi}
         if self.name == "NNDVI":
             # the NN-DVI distance between exactly these two batches (pure function of the partitioner)
-            da = self._nnps(np.asarray(a.reference_batch), xa, cfg["params"]["k_nn"])
-            db = self._nnps(np.asarray(b.reference_batch), xb, cfg["params"]["k_nn"])
+            da = self._nnps(np.asarray(a.reference_batch), np.asarray(xa), cfg["params"]["k_nn"])
+            db = self._nnps(np.asarray(b.reference_batch), np.asarray(xb), cfg["params"]["k_nn"])
         rng.seed_step(*seed)
         a.update(xa)
         rng.seed_step(*seed)
@@ -207,6 +214,9 @@ CFGS = [
 ]
 
 
+DF_VARIANTS = (0, 3, 5, 7)  # HDDDM detect_batch 3, CDBD detect_batch 3, KdqTreeBatch, NNDVI: the same batches as labelled DataFrames
+
+
 def tasks(tier, seed):
     out = []
     for ci, (name, params, decisions, cost) in enumerate(CFGS):
@@ -222,6 +232,20 @@ def tasks(tier, seed):
         base = {"id": ci, "params": params, "decisions": decisions, "menu": menu, "max_perm": 1}
         sysobj = SYSTEMS[name]
         st0 = {"used": 0}
+        if ci in DF_VARIANTS:
+            based = dict(base, id=300 + ci, container="DataFrame", menu=menu[:2])
+            for first in sysobj.alphabet(based, st0, 0):
+                out.append(
+                    {
+                        "system": name,
+                        "cfg": based,
+                        "prefix": [first],
+                        "depth": 2 if name != "HDDDM" else 3,
+                        "label": "%s|%d|df|ref=%s" % (name, ci, first),
+                        "cost": cost * (0.3 if first[1] is not None else 1),
+                        "validate_every": 307,
+                    }
+                )
         for first in sysobj.alphabet(base, st0, 0):
             out.append(
                 {
@@ -268,6 +292,7 @@ def tasks(tier, seed):
 
 
 REQUIRED = [
+    "dataframe_batches",
     "permuted_reference",
     "permuted_test_batch",
     "nonzero_divergences",
